@@ -8,4 +8,4 @@ wt="/tmp/wt-try-$$"; ev="/tmp/ev-try-$$"; mkdir -p "$ev"
 git -C /repo worktree add -q --detach "$wt" HEAD || exit 2
 trap 'git -C /repo worktree remove --force "$wt" >/dev/null 2>&1; rm -rf "$ev"' EXIT
 git -C "$wt" apply "$patch" || { echo "patch does not apply"; exit 2; }
-cd /verif; VERIF_EVIDENCE_DIR="$ev" ./bin/verifcheck -repo "$wt" -verif /verif -property "$prop" -tier "$tier" 2>&1 | grep -E "VIOLATED|UNDECIDED|^OK|VIOLATION" | cut -c1-420 | head -8
+cd /verif; VERIF_EVIDENCE_DIR="$ev" ${VC:-./bin/verifcheck} -repo "$wt" -verif /verif -property "$prop" -tier "$tier" 2>&1 | grep -E "VIOLATED|UNDECIDED|^OK|VIOLATION" | cut -c1-420 | head -8
